@@ -22,7 +22,7 @@ type memberSeed struct {
 
 var memberSeeds = []memberSeed{
 	{"3v", 4, []uint64{1, 2, 3}, nil, []string{"T:1", "run"},
-		[]string{"demote:2", "remove:3", "forceremove:2", "demote:1", "remove:1", "add:4:promote", "add:4", "demote2:2:3", "flipvoter:2", "stale"}},
+		[]string{"demote:2", "remove:3", "forceremove:2", "demote:1", "remove:1", "add:4:promote", "add:4", "demote2:2:3", "flipvoter:2", "flip2:2:3", "stale"}},
 	{"2v+nv", 3, []uint64{1, 2}, []uint64{3}, []string{"T:1", "run"},
 		[]string{"promote:3", "remove:3", "demote:2", "demote:1", "forceremove:2", "handover:3"}},
 	{"1v+nv", 2, []uint64{1}, []uint64{2}, []string{"T:1", "run"},
